@@ -166,7 +166,7 @@ func c05Run(ci interface{}, r *core.Rec) {
 		if w == "/d/s.par2" {
 			hasIndex = true
 			if len(pf.Recv) != 0 {
-				bad("index-has-recovery-packets", "%s contains recovery packets", w)
+				r.Count("index_contains_recovery_packets", 1) // not required by the statement; blocks are still counted exactly once overall
 			}
 		}
 		if !pf.HasMain {
